@@ -304,6 +304,13 @@ def read_back(path, tree, limit=None):
                 continue
             pos, fnf = cands[0]
             n = int(np.prod(shape)) * nf * 8
+            # the FAB's payload runs to the next FAB header of the file (or to its end)
+            nxt = re.search(rb"FAB \(\(", tree[rel][pos:])
+            extent = nxt.start() if nxt else len(tree[rel]) - pos
+            if extent != n:
+                bad.append(f"level {lv} box {b}: the FAB whose header names {lo}..{hi} holds {extent} payload bytes, "
+                           f"the reader returns {n} bytes as its values")
+                continue
             want = tree[rel][pos: pos + n]
             if len(want) != n or arr.flatten(order="F").tobytes() != want:
                 bad.append(f"level {lv} box {b}: values differ from the FAB whose header names {lo}..{hi}")
